@@ -273,13 +273,24 @@ class BufferAnalysis:
         if k == "DeclRefExpr" and (c.get("referencedDecl") or {}).get("name") in self.bools:
             # an explaining local: `bool const ok = <test>; if (ok)`
             return self.cond(self.bools[(c.get("referencedDecl") or {}).get("name")], st)
-        if k == "CXXMemberCallExpr" and len(inner) == 1:
-            # a predicate member without parameters whose body is `return <test>;`
+        if k == "CXXMemberCallExpr" and len(inner) >= 1:
+            # a predicate member whose body is `return <test>;` — its parameters stand for the arguments of this call
             for fn in self.members.get(callee_name(c).split("::")[-1], []):
                 b = body_of(fn)
                 stmts = [x for x in (b.get("inner") or []) if isinstance(x, dict)] if b else []
-                if len(stmts) == 1 and stmts[0].get("kind") == "ReturnStmt" and stmts[0].get("inner") and not params_of(fn):
-                    return self.cond(stmts[0]["inner"][0], st)
+                prms = params_of(fn)
+                if len(stmts) == 1 and stmts[0].get("kind") == "ReturnStmt" and stmts[0].get("inner") and len(prms) == len(inner) - 1 and self.depth < 4:
+                    env = dict(self.subst[-1])
+                    for prm, a in zip(prms, inner[1:]):
+                        if prm.get("name"):
+                            env[prm["name"]] = self.T(a)
+                    self.subst.append(env)
+                    self.depth += 1
+                    try:
+                        return self.cond(stmts[0]["inner"][0], st)
+                    finally:
+                        self.depth -= 1
+                        self.subst.pop()
         if k == "BinaryOperator":
             op = c.get("opcode")
             l, r = self.T(inner[0]), self.T(inner[1])
@@ -2514,6 +2525,14 @@ def rule_ndjson_field_omission(out, tier):
             n += 1
             src = _src(body_of(fn), text)
             guarded_by_monostate = "monostate" in src and "variant_alternative" in src
+            # the test may be named: `template <...> constexpr bool kName = std::is_same_v<std::monostate, std::variant_alternative_t<0, ...>>;`
+            named_tests = [m.group(1) for m in re.finditer(r"constexpr\s+bool\s+(\w+)\s*=\s*([^;]*);", text)
+                           if "is_same" in m.group(2) and "monostate" in m.group(2) and re.search(r"variant_alternative_t\s*<\s*0\s*,", m.group(2))
+                           and not m.group(2).lstrip().startswith("!")]
+            def is_test(l):
+                return "is_same" in l or any(re.search(r"\b%s\b" % re.escape(nm), l) for nm in named_tests)
+            if any(re.search(r"\b%s\b" % re.escape(nm), src) for nm in named_tests):
+                guarded_by_monostate = True
             bad = None
             for p in paths:
                 if p.outcome != "return":
@@ -2521,7 +2540,7 @@ def rule_ndjson_field_omission(out, tier):
                 if p.ret.replace(" ", "") == "true":
                     continue
                 # anything else than `true` (omit the field for some values) needs the monostate test to have succeeded
-                if not (guarded_by_monostate and any(v for l, v in p.lits if "is_same" in l)):
+                if not (guarded_by_monostate and any(v for l, v in p.lits if is_test(l))):
                     bad = p
             out.check(bad is None, rid, "ShouldSerializeFieldValue(variant)", posn, "`index() != 0` only where alternative 0 is std::monostate",
                       "the overload for std::variant can answer `%s` without the first alternative being known to be std::monostate: a field holding the first case of a union without a "
